@@ -275,3 +275,42 @@ PROPS["C06"] = dict(
     assumptions=["ref_token uses jansson's json_loadb over the whole decoded length as the definition of JSON"],
     budget_s=dict(quick=900, thorough=3000),
 )
+
+# ---------------------------------------------------------------- C01
+PROPS["C01"] = dict(
+    level="exploration",
+    technique="exhaustive enumeration of the d=1 mutation neighbourhood of valid tokens (and d=2 for three algorithms) for every key/algorithm pair on the real checker, judged by an independent integer-level signature reference",
+    level_text=("for every (key, algorithm) pair of the support matrix (oct/HS256-512, RSA and RSA-PSS keys with RS*/PS*, P-256/384/521 "
+                "and secp256k1 with ES*, Ed25519, Ed448) and both providers, starting from a reference-signed and a library-signed "
+                "token, every single-bit flip of the signature, every value of its first/last byte and character, every truncation "
+                "and one-character extension, zero padding, ECDSA re-padding, every character substitution and bit flip in header "
+                "and payload, every splice with the signature of every other pool token, every signature made with another "
+                "algorithm, and a list of adversarial assemblies (attacker-keyed HMACs, ECDSA (0,0)/(n,n)/(r,n-s)/DER, RSA s in "
+                "{0,1,n-1,n,s+n}, EdDSA zero/identity) is verified; acceptance is permitted only if ref_crypto finds the signature "
+                "valid under the configured key and the header names the pinned algorithm"),
+    level_note="one-directional (accepted => valid at the integer level): malleability-only variants are not flagged, by design (DESIGN 3 C01)",
+    rule=("evaluations = verifications judged; cases = (pair, base token source, mutation class chunk); non-trivial = cases that ran a "
+          "mutation class against a base token that itself verifies; accepted mutants are each confirmed by the reference (counter)"),
+    runs=_both_providers("sigmut"),
+    bound=dict(quick="d=1 for 12 pairs; header/payload substitutions at a stride-8 subset of positions", thorough="d=1 for 20 pairs at every position; d=2 for HS256, ES256, Ed25519"),
+    assumptions=["trusts libcrypto primitives under ref_crypto (keys parsed from the harness's own PEM, never from a libjwt import)"],
+    budget_s=dict(quick=900, thorough=3000),
+)
+
+# ---------------------------------------------------------------- C12
+PROPS["C12"] = dict(
+    level="exploration",
+    technique="exhaustive enumeration of provider pairs x common support matrix x mutation classes in one process, plus explicit-state search over provider-switching calls and JWT_CRYPTO values",
+    level_text=("all (signing provider, verifying provider) pairs over the common support matrix with keys loaded once and used under "
+                "both providers; byte-identical output for HS*, RS*, EdDSA; every C01 mutant the reference calls invalid must be "
+                "rejected by both providers; every depth-3 history over the d=1 edit neighbourhood of the provider names "
+                "(deletions, case flips, substitutions, insertions) and ids -2..12 against the model 'changes only on an exact "
+                "compiled-in name or id'; every JWT_CRYPTO value of the quantifier by re-executing the harness with the variable set"),
+    level_note="ES256K/secp256k1 are OpenSSL-only and excluded, as the statement scopes",
+    rule=("evaluations = verifications; switching: states = 2 providers, transitions = set_crypto_ops calls compared with the model; "
+          "non-trivial = cases that executed a cross-provider comparison"),
+    runs=lambda tier: [dict(harness="sigmut")],
+    bound=dict(quick="12 common pairs; RSA signature bit flips deferred", thorough="all common pairs, all classes"),
+    assumptions=["mbedTLS is not compiled on this image: its name and id must be refused"],
+    budget_s=dict(quick=900, thorough=3000),
+)
